@@ -1,13 +1,26 @@
 import Blf.Gen.Checks
 import Blf.Codec.Tables
 import Blf.Codec.Pre
-import Blf.FileSeq
+import Blf.FileRoundTrip
 /-!
 # C01 — Write-then-read returns the same objects, in order, for every configuration
-(per-object round trip proved; the file-level composition is under construction in `Blf/FileSeq`)
+
+* `C01_object_roundtrip`: one object, any trailing bytes.
+* `C01_stream_roundtrip`: the object parser on the concatenation of any number of encodings.
+* `C01_file_roundtrip`: the whole file — `readFile (writeFile …)` — for every object list, compression level, container size
+  and restore-point setting: exactly the objects written, in order, each once (every field of the class layout as
+  pre-processed by the writer), then the null result.
+
+Scope of the theorems: objects of the *exactly-framed* classes (`Gen.exactLayouts`, recomputed from the source on every run;
+the others are the subject of the known findings and of the correspondence runs), that the writer accepts (`UserWF`: scalar
+members within their width, arrays of their declared size, container lengths within their length fields), whose type code
+the factory maps back to their class, and that are not shorter than the default layout of their class (`Parsable`; for a
+shorter layout variant the parser seeks backwards — covered dynamically with tiny containers, not by these theorems).
+Assumed about zlib: `inflate (deflate l b) |b| = some b`.  Modelled, not proved: `FileSeq` is what the threaded `File` does
+(correspondence: files written and read by the real library, compared byte for byte and object for object).
 -/
 namespace Blf.Props
-open Blf
+open Blf Blf.FileSeq
 
 theorem C01_object_roundtrip (cfg : Cfg) (hs : cfg.sticky = false) (p : Codec × Layout) (hp : p ∈ Gen.exactLayouts)
     (o o0 : Obj) (rest : Bytes)
@@ -19,5 +32,100 @@ theorem C01_object_roundtrip (cfg : Cfg) (hs : cfg.sticky = false) (p : Codec ×
     Agree (p.2.items.filterMap Item.numDef ++ [p.2.sigF]) (p.2.items.filterMap Item.bufDef)
       (p.1.decode cfg o0 ((p.1.encode cfg o).out ++ rest)).obj (pre p.1 p.2 o) :=
   regular_roundtrip_user cfg hs p.1 p.2 (regularCheck_sound _ _ (List.all_eq_true.mp Gen.exact_all p hp)) o o0 rest hwf hsig harr hcap
+
+/-- an object of an exactly-framed class that the writer accepts and the factory recognises is `Parsable` -/
+theorem parsable_of_exact (cap : Nat) (p : Codec × Layout) (hp : p ∈ Gen.exactLayouts) (o : Obj)
+    (hu : UserWF p.2 o) (hsig : o.num 0 = SIG)
+    (hcap : ∀ f ew len, Item.var f ew len ∈ p.2.items → (o.buf f).length ≤ cap)
+    (hfac : lookupClass (o.num 4) = some p.1)
+    (h16 : 16 ≤ (pre p.1 p.2 o).num 3) (hsz : p.1.sizeExpr.eval p.1.fresh ≤ (pre p.1 p.2 o).num 3) :
+    FileRound.Parsable cap p.1 p.2 o := by
+  have hreg := regularCheck_sound _ _ (List.all_eq_true.mp Gen.exact_all p hp)
+  obtain ⟨h0, h1, h3, hR, h4⟩ := FileRound.hdrCheck_sound p.2 (List.all_eq_true.mp Gen.exact_hdr p hp)
+  have hty : (pre p.1 p.2 o).num 4 = o.num 4 :=
+    pre_num_untouched p.1 p.2 o 4 (by rw [h1]; decide) (by rw [h3]; decide) h4
+  exact ⟨hreg, h0, h3, hR, hu, hsig, hcap, by rw [hty]; exact hfac, h16, hsz⟩
+
+/-- **stream level**: the object parser on the concatenated encodings of any list of parsable objects -/
+theorem C01_stream_roundtrip (cap : Nat) (L : List (Codec × Layout × Obj))
+    (hL : ∀ x ∈ L, FileRound.Parsable cap x.1 x.2.1 x.2.2 ∧ ArrOK x.1.fresh x.2.1.items) :
+    ∃ ds, (objectLoop cap (4 * (FileRound.flat cap L).length + 64)
+        { st := { obj := statsDefault, inp := FileRound.flat cap L } }).objs = ds.reverse ∧
+      FileRound.AllDelivered L ds ∧
+      (objectLoop cap (4 * (FileRound.flat cap L).length + 64)
+        { st := { obj := statsDefault, inp := FileRound.flat cap L } }).outcome = none := by
+  obtain ⟨ds, d1, d2, d3, _⟩ := FileRound.parse_objects cap L hL (FileRound.flat cap L)
+    { st := { obj := statsDefault, inp := FileRound.flat cap L } } (4 * (FileRound.flat cap L).length + 64)
+    ⟨⟨rfl, rfl, Nat.zero_le _, rfl⟩, rfl, rfl⟩ (by simp) (by
+      have := FileRound.flat_fuel cap L (fun x hx => (hL x hx).1); omega)
+  exact ⟨ds, by rw [d1]; simp, d2, d3⟩
+
+/-- **file level**: a read session on what a write session produced -/
+theorem C01_file_roundtrip (Z : Zlib) (hZ : ContainerRound.ZRT Z) (cap : Nat) (cfg : WCfg) (hdr : Obj)
+    (L : List (Codec × Layout × Obj))
+    (hL : ∀ x ∈ L, FileRound.Parsable cap x.1 x.2.1 x.2.2 ∧ ArrOK x.1.fresh x.2.1.items)
+    (hsig : hdr.num 0 = FILESIG)
+    (hH : ItemsWF (FileRoundTrip.storedHeader Z cap cfg hdr (L.map fun x => (x.1, x.2.2))) FileRoundTrip.Lfull)
+    (hP : ∀ p ∈ FileRoundTrip.payloads cap cfg (L.map fun x => (x.1, x.2.2)), ContainerRound.PayloadOK Z cap cfg.level p) :
+    (readFile Z cap (writeFile Z cap cfg hdr (L.map fun x => (x.1, x.2.2)))).outcome = .ended ∧
+    FileRound.AllDelivered L (readFile Z cap (writeFile Z cap cfg hdr (L.map fun x => (x.1, x.2.2)))).objs := by
+  obtain ⟨ds, h1, h2, h3, _⟩ := FileRoundTrip.read_write_file Z hZ cap cfg hdr L hL hsig hH hP
+  exact ⟨h1, by rw [h2]; exact h3⟩
+
+/-- `AllDelivered` means: as many objects as written, the i-th delivered object has the class name of the i-th written one
+    and agrees with it on every field of its layout -/
+theorem C01_delivered_length (L : List (Codec × Layout × Obj)) (ds : List (String × Obj)) (h : FileRound.AllDelivered L ds) :
+    ds.length = L.length := h.length_eq
+
+/-! ### non-vacuity: the hypotheses are met by real objects; a concrete file is written and read back -/
+
+theorem canMsg_mem : (Gen.CanMessage, Gen.CanMessage_layout) ∈ Gen.exactLayouts := by
+  unfold Gen.exactLayouts
+  repeat (first | exact List.mem_cons_self .. | apply List.mem_cons_of_mem)
+
+
+def Zid : Zlib := { deflate := fun _ b => b, inflate := fun c n => if c.length = n then some c else none }
+theorem Zid_rt : ContainerRound.ZRT Zid := by intro l b; simp [Zid]
+
+theorem canMsg_parsable : FileRound.Parsable (2^20) Gen.CanMessage Gen.CanMessage_layout Gen.CanMessage.fresh := by
+  refine parsable_of_exact (2^20) (Gen.CanMessage, Gen.CanMessage_layout) canMsg_mem _ ?_ ?_ ?_ ?_ ?_ ?_
+  · intro i hi
+    simp only [Gen.CanMessage_layout, List.mem_cons, List.not_mem_nil, or_false] at hi
+    rcases hi with rfl | rfl | rfl | rfl | rfl | rfl | rfl | rfl | rfl | rfl | rfl | rfl | rfl <;> simp [Gen.CanMessage_layout] <;> decide
+  · decide
+  · intro f ew len hm; simp [Gen.CanMessage_layout] at hm
+  · decide
+  · decide
+  · decide
+
+
+theorem payloadOK_small (p : Bytes) (h : p.length < 1000) : ContainerRound.PayloadOK Zid (2^20) 1 p := by
+  refine ⟨by omega, ?_, by omega, ?_⟩ <;> simp [ContainerRound.stored, Zid] <;> omega
+
+set_option maxRecDepth 8000 in
+example : (readFile Zid (2^20) (writeFile Zid (2^20) {} statsDefault [(Gen.CanMessage, Gen.CanMessage.fresh), (Gen.CanMessage, Gen.CanMessage.fresh)])).outcome = .ended ∧
+    (readFile Zid (2^20) (writeFile Zid (2^20) {} statsDefault [(Gen.CanMessage, Gen.CanMessage.fresh), (Gen.CanMessage, Gen.CanMessage.fresh)])).objs.length = 2 := by
+  have h := C01_file_roundtrip Zid Zid_rt (2^20) {} statsDefault
+    [(Gen.CanMessage, Gen.CanMessage_layout, Gen.CanMessage.fresh), (Gen.CanMessage, Gen.CanMessage_layout, Gen.CanMessage.fresh)]
+    (by intro x hx; simp at hx; subst hx; exact ⟨canMsg_parsable, by intro f n hm; simp [Gen.CanMessage_layout] at hm; obtain ⟨rfl, rfl⟩ := hm; decide⟩)
+    (by decide) (by decide)
+    (by
+      intro p hp
+      apply payloadOK_small
+      have hlen : (FileRoundTrip.streamOf (2^20) [(Gen.CanMessage, Gen.CanMessage.fresh), (Gen.CanMessage, Gen.CanMessage.fresh)]).length = 96 := by decide
+      have hch : FileRoundTrip.payloads (2^20) {} [(Gen.CanMessage, Gen.CanMessage.fresh), (Gen.CanMessage, Gen.CanMessage.fresh)] =
+          [FileRoundTrip.streamOf (2^20) [(Gen.CanMessage, Gen.CanMessage.fresh), (Gen.CanMessage, Gen.CanMessage.fresh)], []] := by
+        unfold FileRoundTrip.payloads
+        rw [hlen]
+        unfold chunk
+        rw [if_neg (by rw [hlen]; decide)]
+        rfl
+      have hp' : p ∈ FileRoundTrip.payloads (2^20) {} [(Gen.CanMessage, Gen.CanMessage.fresh), (Gen.CanMessage, Gen.CanMessage.fresh)] := hp
+      rw [hch] at hp'
+      simp only [List.mem_cons, List.not_mem_nil, or_false] at hp'
+      rcases hp' with rfl | rfl
+      · rw [hlen]; decide
+      · decide)
+  exact ⟨h.1, by have := h.2.length_eq; simpa using this⟩
 
 end Blf.Props
